@@ -170,7 +170,10 @@ def check_d3_d5(ctx) -> None:
     sup = [c for c in calls_in(f.node) if isinstance(c.func, ast.Attribute) and c.func.attr == 'Calculate' and isinstance(c.func.value, ast.Call)]
     ctx.check(bool(sup) and sup[0].lineno < st[0].lineno, 'D3', 'TDPReservoir.Calculate/after-parent', f.where, 'parent Calculate (BHT) does not run first')
     # SF (model 3)
+    import dataclasses
+    from gxstat.inline import canonical_function
     g = repo.method('SFReservoir', 'Calculate')
+    g = dataclasses.replace(g, node=canonical_function(g.node, unnest=False, short=True))        # `reserv = model.reserv`, `t0 = reserv.Trock.value` are those paths
     first = [s for s in g.node.body if isinstance(s, ast.Assign) and norm(s.targets[0]) == f'{R}.Tresoutput.value[0]']
     ctx.check(len(first) == 1 and norm(first[0].value) == TROCK, 'D3', 'SFReservoir.Calculate/starts-at-BHT', f'{g.module.rel}:{first[0].lineno if first else g.node.lineno}',
               'the first element of the single-fracture temperature history is not set to bottom-hole temperature '
